@@ -254,7 +254,7 @@ Proof.
     + change pe_aligns_mid_sections with true. cbv iota.
       apply Z.ltb_lt in El. replace (nsec - 1 <=? i) with false in Ea by (symmetry; apply Z.leb_gt; lia).
       cbn [orb] in Ea. apply andb_true_iff in Ea. destruct Ea as [Ef Er]. apply negb_true_iff in Ef. rewrite Ef.
-      unfold align32, pe_align_rem, pe_align_needed. rewrite Er. reflexivity.
+      unfold align32, pe_align_zero, pe_align_rem, pe_align_needed. rewrite Ef, Er. reflexivity.
     + reflexivity.
 Qed.
 
